@@ -533,6 +533,14 @@ func (n *Net) ListenTCP(ip net.IP, port int) (*Listener, error) {
 	return l, nil
 }
 
+// Bound returns the number of UDP sockets and TCP listeners bound right now.
+func (n *Net) Bound() (udp, tcp int) {
+	n.mu.Lock()
+	defer n.mu.Unlock()
+
+	return len(n.udp), len(n.lst)
+}
+
 // TCPListening reports whether a listener is bound at ip:port.
 func (n *Net) TCPListening(ip net.IP, port int) bool {
 	n.mu.Lock()
